@@ -13,7 +13,7 @@ from gen import Gen
 from common import cerberus
 from cerberus import TypeDefinition
 
-LEVEL = "proof"
+LEVEL = "exploration"
 COQ_FILES = []
 FACT_GROUPS = []
 ALLOWED_AXIOMS = []
